@@ -899,6 +899,116 @@ def check_file_entry_points(ctx, pool, tmp):
                                       dict(_rp('file_entry_point', alg, kw, format=fmt, comment=_b(cm), api='read_certificate'), problems=problems))
 
 
+def check_security_keys(ctx, pool, tmp):
+    """Security-key types (no hardware needed to parse them): containers written by the harness's own openssh-key-v1
+    writer with every field at usual and unusual values; after import -> export the container is read back with the
+    harness's own reader and compared FIELD BY FIELD (asyncssh's equality is not used), and with ssh-keygen -y."""
+    import asyncssh
+    from . import c15_gen as G
+    edpub = [k for a, _, k in pool if a == 'ssh-ed25519']
+    ecpub = [k for a, _, k in pool if a == 'ecdsa-sha2-nistp256']
+    if not edpub or not ecpub:
+        ctx.cov['oracle']['security_keys'] = 'no ed25519/nistp256 key in the pool'
+        return
+    pubs = {G.SK_ED: edpub[0].public_data[-32:], G.SK_EC: ecpub[0].public_data[-65:]}
+    flagsl = [0x00, 0x01, 0x04, 0x05, 0x20, 0x21, 0x25, 0x80, 0xff] if ctx.tier == 'thorough' else [0x01, 0x05, 0x21, 0x25, 0x00, 0xff]
+    n = 0
+    for alg in (G.SK_ED, G.SK_EC):
+        for flags in flagsl:
+            for app, handle, reserved, cm in ((b'ssh:', b'\x42' * 64, b'', b'sk comment'), ('ssh:ünusual app'.encode(), bytes(range(256)), b'\x00\x01\x02', b''),
+                                              (b'', b'', b'', b'\xff bin \x00')):
+                rec, pubb = G.sk_record(alg, pubs[alg], app, flags, handle, reserved)
+                text = G.armour_openssh(G.openssh_container(rec, pubb, cm))
+                want = {'alg': alg, 'fields': G.parse_record(rec, G.SK_LAYOUTS)[1], 'comment': cm, 'pub': pubb}
+                ctx.note_case(('security-key', alg, flags, app, len(handle), reserved, cm), nontrivial=True)
+                rp = {'kind': 'security_key', 'alg': alg.decode(), 'keygen': None, 'format': 'openssh', 'flags': flags, 'data': text.hex()}
+                try:
+                    k = asyncssh.import_private_key(text)
+                    out = k.export_private_key('openssh')
+                    got = G.read_openssh_container(out, G.SK_LAYOUTS)
+                    problems = [f'{f}: {got[f]!r} instead of {want[f]!r}' for f in ('alg', 'fields', 'comment', 'pub') if got[f] != want[f]]
+                    if got['fields'] != want['fields'] and len(got['fields']) == len(want['fields']):
+                        names = ['curve', 'public', 'application', 'flags', 'key handle', 'reserved'][-len(want['fields']):]
+                        problems = [f'{nm}: {g!r} instead of {w!r}' for nm, g, w in zip(names, got['fields'], want['fields']) if g != w] + \
+                                   [p_ for p_ in problems if not p_.startswith('fields')]
+                    if k.public_data != pubb:
+                        problems.append('public_data differs from the public blob written')
+                    if SSH_KEYGEN:
+                        pa, pb = os.path.join(tmp, 'sk-in-%d' % n), os.path.join(tmp, 'sk-out-%d' % n)
+                        n += 1
+                        _write(pa, text)
+                        _write(pb, out)
+                        ra, rb = _run(['-y', '-f', pa]), _run(['-y', '-f', pb])
+                        if ra[0] == 0 and (rb[0] != 0 or _pubfields(ra[1]) != _pubfields(rb[1])):
+                            problems.append(f'ssh-keygen -y reads the original but not (or differently) the re-export: {rb[2][:100]!r}')
+                        ctx.count('sweep.sk.keygen_read.' + ('ok' if ra[0] == 0 else 'unsupported_by_openssh'))
+                except Exception as e:         # noqa
+                    problems = [f'{type(e).__name__}: {e}']
+                ctx.count('sweep.sk.' + ('ok' if not problems else 'fail'))
+                if problems:
+                    ctx.failing_input(f'{alg.decode()} private key with flags {flags:#04x} imported and re-exported as openssh: ' + '; '.join(problems)[:600],
+                                      dict(rp, problems=problems[:4]))
+
+
+def check_container_writers(ctx, pool, tmp):
+    """OpenSSH-format files written by cryptography, by ssh-keygen and by the harness's own writer with every comment
+    length mod 8 and paddings of 0..7, 8.. (cryptography pads 1..8), 16.. and up to 255 bytes: whatever both ssh-keygen
+    and cryptography read, asyncssh must import as the same key with the same comment."""
+    import asyncssh
+    from cryptography.hazmat.primitives import serialization as ser
+    from . import c15_gen as G
+    n = 0
+    for alg, kw, key in pool:
+        if alg not in KEYGEN_TYPES:
+            continue                                  # no second reference reader for the type
+        ref_priv = _pyca_canon_private(key.pyca_key)
+        texts = []
+        try:
+            t = key.pyca_key.private_bytes(ser.Encoding.PEM, ser.PrivateFormat.OpenSSH, ser.NoEncryption())
+            texts.append(('cryptography', b'', t))
+            import binascii
+            raw = binascii.a2b_base64(b''.join(t.strip().split(b'\n')[1:-1]))
+            ctx.count('sweep.writers.cryptography_padlen.%d' % (len(raw) - raw.rindex(key.private_data) - len(key.private_data) - 4))
+        except Exception:                      # noqa
+            pass
+        for clen in range(8):
+            cm = b'c' * clen
+            base = len(b'12345678' + key.private_data + G.ssh_s(cm))
+            p0 = (-base) % 8
+            for padlen in sorted({p0, p0 + 8, p0 + 16, p0 + 248 if p0 + 248 < 256 else p0 + 240}):
+                if ctx.tier != 'thorough' and padlen > p0 + 8 and (clen + n) % 3:
+                    continue
+                texts.append((f'own writer, padding {padlen}', cm, G.armour_openssh(G.openssh_container(key.private_data, key.public_data, cm, padlen=padlen))))
+        for who, cm, text in texts:
+            path = os.path.join(tmp, 'wr-%d' % n)
+            n += 1
+            _write(path, text)
+            rc, out, err = _run(['-y', '-f', path])
+            ok1 = rc == 0 and _pubfields(out) == _pubfields(key.export_public_key('openssh'))
+            try:
+                with warnings.catch_warnings():
+                    warnings.simplefilter('ignore')
+                    ok2 = _pyca_canon_private(ser.load_ssh_private_key(text, None)) == ref_priv
+            except Exception:                  # noqa
+                ok2 = False
+            ctx.note_case(('container-writer', alg, repr(kw), who, len(cm)), nontrivial=True)
+            if not (ok1 and ok2):
+                ctx.count('sweep.writers.not_read_by_both_references')
+                continue
+            try:
+                k2 = asyncssh.import_private_key(text)
+                good = _same_private(k2, key) and (k2.get_comment_bytes() or b'') == cm
+                err = 'different key or comment'
+            except Exception as e:             # noqa
+                good = False
+                err = f'{type(e).__name__}: {e}'
+            ctx.count('sweep.writers.' + ('ok' if good else 'fail'))
+            if not good:
+                ctx.failing_input(f'{alg} OpenSSH-format private key ({who}, comment of {len(cm)} bytes) is read by ssh-keygen and by '
+                                  f'cryptography but asyncssh gives {err}',
+                                  _rp('container_writer', alg, kw, format='openssh', writer=who.split(',')[0], data=text.hex(), comment=_b(cm)))
+
+
 # ---------------------------------------------------------------------------------------------
 
 def run_sweep(ctx, pool):
@@ -951,7 +1061,8 @@ def run_sweep(ctx, pool):
                                                                                  'format': 'pyca', 'exception': type(e).__name__})
         for fn, args in ((check_key_lists, (ctx, pool, tmp, rng)), (check_ssh_keygen, (ctx, pool, tmp, rng, thorough)),
                          (check_openssl_cli, (ctx, pool, tmp)), (check_certificates, (ctx, pool, tmp)),
-                         (check_file_entry_points, (ctx, pool, tmp)), (check_optional_fields, (ctx, pool, tmp))):
+                         (check_file_entry_points, (ctx, pool, tmp)), (check_optional_fields, (ctx, pool, tmp)),
+                         (check_security_keys, (ctx, pool, tmp)), (check_container_writers, (ctx, pool, tmp))):
             try:
                 fn(*args)
             except Exception as e:             # noqa  an import/export raised where the oracle expected a result
@@ -966,7 +1077,8 @@ def run_sweep(ctx, pool):
         d = ctx.cov['distribution']
         for need in ('sweep.wrong_passphrase.rejected', 'sweep.cross_type_passphrase.ok', 'sweep.pyca.write_private.ok',
                      'sweep.pyca.read_private.ok.pkcs8-der', 'sweep.lists.private.openssh', 'sweep.cert.roundtrip.ok',
-                     'sweep.file_entry.private.ok', 'sweep.file_entry.public.ok', 'sweep.optional_fields.ok'):
+                     'sweep.file_entry.private.ok', 'sweep.file_entry.public.ok', 'sweep.optional_fields.ok',
+                     'sweep.sk.ok', 'sweep.writers.ok'):
             if not d.get(need):
                 ctx.broke('vacuity:' + need, 'the sweep never reached this class')
         if not (d.get('sweep.public.export_refused.newline_comment') or ctx.cov['oracle'].get('failing_groups')):
